@@ -20,7 +20,7 @@ pub static DEF: PropDef = PropDef {
     id: "C06",
     level: "exploration",
     engine: "ingest",
-    rule: "one run = a real Ingester (WAL on or off, object-store or in-memory catalog, flush_row_count 2..50, flush_interval 0.2..5 s, sometimes a tiny max_buffer_size) with 2..4 concurrent writer tasks issuing 3..8 writes each of 1..50-row batches (one write in seven re-sends the previous batch unchanged) over 4 schema variants (both timestamp types, nullable label, i64/u64/f64 extremes incl. NaN/-0/inf/subnormal, near-extreme timestamps) plus the flush timer and two subscribers; no storage faults; requests go through the real Arrow-Flight and OTLP ingest handlers or straight to Ingester::write; a third of the runs drop one handler future in five at a seeded point (client disconnect; that request's rows may or may not be stored, everybody else's must be); every object-store request and the post-WAL-append pause point is a seeded scheduling point; distinct = distinct grant sequence; non-trivial = completed AND writers/flushes interleaved",
+    rule: "one run = a real Ingester (WAL on or off, object-store or in-memory catalog, flush_row_count 2..50 or (one run in five) a size threshold of 300 B..6 KB, flush_interval 0.2..5 s, sometimes a tiny max_buffer_size) with 2..4 concurrent writer tasks issuing 3..8 writes each of 1..50-row batches (one write in seven re-sends the previous batch unchanged) over 4 schema variants (both timestamp types, nullable label, i64/u64/f64 extremes incl. NaN/-0/inf/subnormal, near-extreme timestamps) plus the flush timer and two subscribers; no storage faults; requests go through the real Arrow-Flight and OTLP ingest handlers or straight to Ingester::write; a third of the runs drop one handler future in five at a seeded point (client disconnect; that request's rows may or may not be stored, everybody else's must be); every object-store request and the post-WAL-append pause point is a seeded scheduling point; distinct = distinct grant sequence; non-trivial = completed AND writers/flushes interleaved",
     quick_runs: 4000,
     thorough_runs: 60_000,
     run_cap_ms: 30_000,
@@ -54,6 +54,12 @@ fn scen(spec: RunSpec) -> ScenFut {
         if tiny_buffer {
             cfg.max_buffer_size_bytes = 2500;
         }
+        // one run in five flushes by size instead of by row count
+        let by_size = sim::w(5) == 4;
+        if by_size {
+            cfg.flush_row_count = 1_000_000;
+            cfg.flush_size_bytes = [300usize, 1500, 6000][sim::w(3) as usize];
+        }
         let post = sim::w_bool(50);
         sim::set_cfg(|c| {
             c.post_gates = post;
@@ -68,7 +74,7 @@ fn scen(spec: RunSpec) -> ScenFut {
             cfg.wal.enabled = false;
         }
         sim::log(format!(
-            "CONFIG catalog={} wal={wal_on} flush_rows={} flush_interval={:?} tiny_buffer={tiny_buffer} post_gates={post} adversarial_hash_keys={adv_hash}",
+            "CONFIG catalog={} wal={wal_on} flush_rows={} flush_interval={:?} tiny_buffer={tiny_buffer} flush_by_size={by_size} post_gates={post} adversarial_hash_keys={adv_hash}",
             if local_meta { "local" } else { "object-store" },
             cfg.flush_row_count,
             cfg.flush_interval
